@@ -481,6 +481,29 @@ Proof.
   unfold set_flush, meta_write, release_before, release_where in Hk. cbn [w_meta w_data w_open w_counters t_tail] in Hk. congruence.
 Qed.
 
+(* ---------- truncateTail in general (data files may be dropped) ---------- *)
+Lemma skipn_len_sub {A} kd (l : list A) m : length l = m -> skipn (length l - (m - kd)) l = skipn kd l.
+Proof.
+  intros <-. destruct (Nat.le_ge_cases kd (length l)).
+  - replace (length l - (length l - kd))%nat with kd by lia. reflexivity.
+  - replace (length l - (length l - kd))%nat with (length l) by lia. rewrite !skipn_all2 by lia. reflexivity.
+Qed.
+
+Lemma ci_truncate_tail maxsz t n t' bl :
+  DInv maxsz t -> CI t bl -> n < two32 -> t_head t + 1 < 65536 -> truncate_tail t n = Ok t' ->
+  CI t' (skipn (length bl - length (rest_of t')) bl).
+Proof.
+  intros HD [HC H0] Hn Hh E. destruct (dinv_truncate_tail_sfx maxsz t n t' HD Hn Hh E) as (HD' & [[Z Hz]|(kd & Hr & Hb & Hfc & Hhb)]).
+  - split; [|intros _; exact Hz]. unfold CInv. rewrite Z. cbn [length]. rewrite Nat.sub_0_r, skipn_all. exact I.
+  - split; [|apply Hhb; exact H0].
+    pose proof (content_length _ _ _ _ HC) as Hlen. unfold CInv in *.
+    assert (Hl : length (rest_of t') = (length (rest_of t) - kd)%nat) by (rewrite Hr; apply skipn_length).
+    rewrite Hl, (skipn_len_sub kd bl (length (rest_of t))) by (symmetry; exact Hlen).
+    rewrite Hr. eapply content_ext; [|apply (content_skipn _ kd _ None); [exact HC| |reflexivity]].
+    + intros e He f Hf. rewrite <- Hr in He. exact (Hb e He f Hf).
+    + rewrite <- Hr. exact Hfc.
+Qed.
+
 (* ---------- histories: the ghost list of appended items ---------- *)
 Section GHist.
 Variable maxsz : N.
